@@ -47,13 +47,20 @@ fn msg_flags_of(w: u16) -> MsgFlags {
 
 // ---- C14 / C05 / C04: header flag word, all 65 536 words --------------------------------------------
 #[kani::proof]
-fn msg_flags_getters() {
+fn msg_flags_type_length_sequence() {
     let w: u16 = kani::any();
     let f = msg_flags_of(w);
     let wi = w as u32;
     assert!(matches!(f.get_type(), MessageFlagType::Control) == ((wi / 256) % 2 == 1));
     assert!(f.has_length() == ((wi / 512) % 2 == 1));
     assert!(f.has_ns_nr() == ((wi / 4096) % 2 == 1));
+    kani::cover!(true);
+}
+#[kani::proof]
+fn msg_flags_offset_priority_version() {
+    let w: u16 = kani::any();
+    let f = msg_flags_of(w);
+    let wi = w as u32;
     assert!(f.has_offset() == ((wi / 16384) % 2 == 1));
     assert!(f.is_prioritized() == ((wi / 32768) % 2 == 1));
     assert!(f.get_version() as u32 == (wi / 16) % 16);
@@ -337,6 +344,7 @@ fn vec_writer_ints() {
     let k: usize = kani::any();
     kani::assume(k <= 3);
     let mut w = VecWriter::new();
+    assert!(w.data.len() == 0 && w.is_empty());
     w.write_bytes(&pre[..k]);
     let (a, b, c): (u16, u32, u64) = (kani::any(), kani::any(), kani::any());
     w.write_u16_be(a);
